@@ -1,6 +1,58 @@
-import GnoVerif.Model.C36
+import GnoVerif.Proofs.C36
+/-!
+C36 — commit verification accepts exactly the commits with +2/3 valid signatures.
+
+Model: `Model/C36.lean` (the code, check by check); statement vocabulary:
+`Spec/C36.lean` (`WellFormed`, `signedPower`, `OldWellFormed`, `oldSignedPower`);
+helper lemmas: `Proofs/C36.lean`.  All theorems are for EVERY validator set that
+satisfies the invariants `ValidatorSet` maintains (`validSet`, a decidable
+predicate: positive powers, total ≤ MaxTotalVotingPower, addresses strictly
+sorted), every block id, height and commit (any length, any entries).
+-/
 namespace GnoVerif.C36
 
-theorem placeholder : wrap64 5 = 5 := by decide
+/-- The invariant predicate is inhabited by ordinary sets, including one whose
+total is exactly `MaxTotalVotingPower`. -/
+example : validSet [⟨2, 1⟩, ⟨5, 10⟩, ⟨7, 3⟩] = true := by decide
+example : validSet [⟨0, 1152921504606846974⟩, ⟨9, 1⟩] = true := by decide
+example : validSet [⟨0, 1152921504606846975⟩, ⟨9, 1⟩] = false := by decide
+
+/-- Go's `tallied > total*2/3` (int64 multiplication, truncated division) decides
+`3·tallied > 2·total` whenever `0 ≤ total ≤ MaxTotalVotingPower = MaxInt64/8`:
+the product cannot wrap and truncation does not change the comparison. -/
+theorem twoThirds_int64_exact (tallied total : Int) (h0 : 0 ≤ total)
+    (h1 : total ≤ maxTotalVotingPower) :
+    tallied > twoThirds total ↔ 3 * tallied > 2 * total :=
+  gt_twoThirds_iff h0 h1
+
+/-- `TotalVotingPower()` (clipped running sum with the panic above the cap) is the
+exact sum for every set the type can hold. -/
+theorem totalVotingPower_exact (vals : ValSet) (hv : validSet vals = true) :
+    totalVotingPower vals = .ok (sumPowers vals) :=
+  totalVotingPower_ok ((validSet_iff vals).1 hv)
+
+/-- **VerifyCommit.**  It returns nil exactly when the commit is well-formed for
+the height and block asked about and the validators whose slot holds a verifying
+precommit for that block hold more than 2/3 of the total power (exact integers,
+no rounding, no overflow). -/
+theorem verifyCommit_ok_iff (vals : ValSet) (hv : validSet vals = true)
+    (blockID : Nat) (height : Int) (c : Commit) :
+    verifyCommit vals blockID height c = .ok () ↔
+      WellFormed vals blockID height c ∧
+      3 * signedPower vals blockID height c > 2 * sumPowers vals :=
+  verifyCommit_ok_iff_aux ((validSet_iff vals).1 hv) blockID height c
+
+/-- **VerifyFutureCommit.**  It returns nil exactly when the commit passes
+`VerifyCommit` for the new set and, additionally, the old validators named by the
+commit's entries (first naming entry each) all verify under their old keys and
+those of them that precommitted the block hold more than 2/3 of the OLD total. -/
+theorem verifyFutureCommit_ok_iff (old new : ValSet) (ho : validSet old = true)
+    (hn : validSet new = true) (blockID : Nat) (height : Int) (c : Commit) :
+    verifyFutureCommit old new blockID height c = .ok () ↔
+      (WellFormed new blockID height c ∧
+        3 * signedPower new blockID height c > 2 * sumPowers new) ∧
+      OldWellFormed old c ∧
+      3 * oldSignedPower old blockID height c > 2 * sumPowers old :=
+  verifyFutureCommit_ok_iff_aux ((validSet_iff old).1 ho) ((validSet_iff new).1 hn) blockID height c
 
 end GnoVerif.C36
